@@ -141,6 +141,9 @@ func (m *Model) runCheck(prop, tier string, keep bool, timeout int) int {
 	if prop == "C10" {
 		allObls = append(allObls, m.structuralC10()...)
 	}
+	if prop == "C11" || prop == "C01" {
+		allObls = append(allObls, m.structuralErrorsUsed(prop)...)
+	}
 	// discharge, all functions in one pool
 	type task struct {
 		e *Enc
@@ -732,4 +735,93 @@ func knownExplanation(prop string, hit []string) string {
 		return "every generated obligation was discharged"
 	}
 	return fmt.Sprintf("%d generated obligations belong to genuine defects recorded in /verif/known_findings.json (open findings, DESIGN.md 10.5); they fail as recorded, are reported as KNOWN-FINDING by the check of the finding's own property, and are not counted under obligations/discharged: %s", len(hit), strings.Join(hit, ", "))
+}
+
+// structuralErrorsUsed: in package lang no error result of a call is discarded (C11: a fault stops the
+// run at the fault; C01: the error funnel), except at the listed sites.
+func (m *Model) structuralErrorsUsed(prop string) []*Obl {
+	allowed := map[string]string{
+		// output errors of the evaluator's writer are not part of the language
+		"fmt.Fprint": "output", "fmt.Fprintf": "output", "fmt.Fprintln": "output",
+		"(*strings.Builder).WriteString": "cannot fail", "(*strings.Builder).WriteByte": "cannot fail", "(*strings.Builder).WriteRune": "cannot fail",
+	}
+	allowedSite := map[string]string{
+		// atStatementEnd returns a bool: a lexical error after ';' is reported by the next parser step
+		// at the ';' instead (DESIGN.md 10.5, not repaired)
+		"Parser.atStatementEnd -> (*Parser).consume": "documented",
+		// sort copies elements that were already copied into the array, so copying cannot fail
+		// (explicit assumption array-elements-are-never-functions)
+		"getArrayPrototype/sort -> copyValue": "explicit assumption",
+		// the root frame has depth 0, which pushFrame never refuses (its contract: refused-iff-too-deep)
+		"NewEvaluator -> (*Evaluator).pushFrame": "cannot fail",
+	}
+	errT := types.Universe.Lookup("error").Type()
+	var dropped []string
+	for _, name := range sortedKeys(m.funcs) {
+		f := m.funcs[name]
+		pkg := f.Pkg
+		for p := f.Parent(); pkg == nil && p != nil; p = p.Parent() {
+			pkg = p.Pkg
+		}
+		if pkg == nil || pkg.Pkg.Name() != "lang" {
+			continue
+		}
+		for _, b := range f.Blocks {
+			for _, ins := range b.Instrs {
+				call, ok := ins.(*ssa.Call)
+				if !ok {
+					continue
+				}
+				res := call.Call.Signature().Results()
+				idx := -1
+				for i := 0; i < res.Len(); i++ {
+					if types.Identical(res.At(i).Type(), errT) {
+						idx = i
+					}
+				}
+				if idx < 0 {
+					continue
+				}
+				used := false
+				for _, r := range *call.Referrers() {
+					if _, isDbg := r.(*ssa.DebugRef); isDbg {
+						continue
+					}
+					if res.Len() == 1 {
+						used = true
+						break
+					}
+					if ex, ok := r.(*ssa.Extract); ok && ex.Index == idx {
+						for _, r2 := range *ex.Referrers() {
+							if _, isDbg := r2.(*ssa.DebugRef); !isDbg {
+								used = true
+							}
+						}
+					}
+				}
+				if used {
+					continue
+				}
+				callee := "dynamic call"
+				if sc := call.Call.StaticCallee(); sc != nil {
+					callee = sc.String()
+					if i := strings.LastIndex(callee, "/"); i >= 0 && !strings.HasPrefix(callee, "(") {
+						callee = callee[i+1:]
+					}
+					callee = strings.Replace(callee, "github.com/alligator/jqawk/src.", "", 1)
+					callee = strings.Replace(callee, "src.", "", 1)
+				}
+				if allowed[callee] != "" || allowedSite[name+" -> "+callee] != "" {
+					continue
+				}
+				dropped = append(dropped, fmt.Sprintf("%s discards the error of %s (%s)", name, callee, m.fset.Position(call.Pos())))
+			}
+		}
+	}
+	st := "unsat"
+	if len(dropped) > 0 {
+		st = "failed"
+	}
+	return []*Obl{{Name: "package lang#structural:no-error-result-is-discarded", Kind: "structural", Props: []string{prop}, Status: st, Solver: "govc (SSA scan)", Output: strings.Join(dropped, "\n"), Func: "package lang",
+		Src: "no call in package lang discards an error result, except output errors of the writer, strings.Builder writes, the ';' consumed by atStatementEnd, the element copies of sort and the root frame push"}}
 }
